@@ -105,8 +105,7 @@ def aux_file():
     for name in ('en', 'en_rebank', 'ja'):
         aux['seen'][name] = [[enc.parse_text(a), enc.parse_text(b)] for a, b in inventory.seen_rules(name)]
         aux['unary'][name] = [[enc.parse_text(a), enc.parse_text(b)] for a, b in inventory.unary_rules(name)]
-    from depccg.grammar import ja
-    aux['ja_roots'] = [enc.enc_cat(c) for c in ja._possible_root_categories]
+    aux['ja_roots'] = [enc.parse_text(t) for t in inventory.JA_ROOTS_SPEC]
     p = os.path.join(scratch('aux'), 'rules_aux.json')
     with open(p, 'w') as f:
         json.dump(aux, f, ensure_ascii=True, separators=(',', ':'))
